@@ -28,6 +28,7 @@ import (
 	"strconv"
 	"strings"
 	"sync"
+	"sync/atomic"
 	"time"
 	"unsafe"
 
@@ -196,21 +197,69 @@ func c20CallBoxed(f func(...interface{}) []interface{}, input []int) []int {
 	return out
 }
 
+func c20SameInts(a, b []int) bool {
+	if len(a) != len(b) {
+		return false
+	}
+	for i := range a {
+		if a[i] != b[i] {
+			return false
+		}
+	}
+	return true
+}
+
+// The function list is held in ONE slice that is spread into the combinator (`X(fs...)`), as a caller would do.  The
+// composition is built and run, then built a second time from the same slice and run, then the first composition is run
+// again: the three results must agree (the functions are pure) — a combinator that reorders, truncates or otherwise
+// edits its caller's slice is right the first time only.  Deviations are appended to the observation
+// (`again=… rerun=…`), which the model never prints.
 func c20RunCP(variant string, input []int, fs []func(...int) []int) string {
-	var out []int
+	var build func() func(...int) []int
 	switch variant {
 	case "C":
-		out = fpgo.Compose(fs...)(input...)
+		build = func() func(...int) []int { return fpgo.Compose(fs...) }
 	case "P":
-		out = fpgo.Pipe(fs...)(input...)
-	case "CI":
-		out = c20CallBoxed(fpgo.ComposeInterface(c20BoxAll(fs)...), input)
-	case "PI":
-		out = c20CallBoxed(fpgo.PipeInterface(c20BoxAll(fs)...), input)
+		build = func() func(...int) []int { return fpgo.Pipe(fs...) }
+	case "CI", "PI":
+		bfs := c20BoxAll(fs)
+		build = func() func(...int) []int {
+			var f func(...interface{}) []interface{}
+			if variant == "CI" {
+				f = fpgo.ComposeInterface(bfs...)
+			} else {
+				f = fpgo.PipeInterface(bfs...)
+			}
+			return func(in ...int) []int { return c20CallBoxed(f, in) }
+		}
 	default:
 		return "bad-case"
 	}
-	return "ok " + c20ShowInts(out)
+	first := build()
+	out := first(input...)
+	res := "ok " + c20ShowInts(out)
+	again := build()(input...)
+	rerun := first(input...)
+	if !c20SameInts(again, out) || !c20SameInts(rerun, out) {
+		res += " again=" + c20ShowInts(again) + " rerun=" + c20ShowInts(rerun)
+	}
+	// the other direction built from the same slice afterwards: Compose(fs) = Pipe(reverse(fs)) on a private reversed copy
+	if variant == "C" || variant == "P" {
+		rev := make([]func(...int) []int, len(fs))
+		for i, f := range fs {
+			rev[len(fs)-1-i] = f
+		}
+		var other, otherRev []int
+		if variant == "C" {
+			other, otherRev = fpgo.Pipe(rev...)(input...), fpgo.Compose(fs...)(input...)
+		} else {
+			other, otherRev = fpgo.Compose(rev...)(input...), fpgo.Pipe(fs...)(input...)
+		}
+		if !c20SameInts(other, out) || !c20SameInts(otherRev, out) {
+			res += " reversed=" + c20ShowInts(other) + " third=" + c20ShowInts(otherRev)
+		}
+	}
+	return res
 }
 
 func c20RunCG(variant string, k int, input []int, fs []func(...int) []int) string {
@@ -218,16 +267,31 @@ func c20RunCG(variant string, k int, input []int, fs []func(...int) []int) strin
 		return c20RunCP(variant, input, fs)
 	}
 	a, b := fs[:k], fs[k:]
-	var out []int
-	switch variant {
-	case "C":
-		out = fpgo.Compose(fpgo.Compose(a...), fpgo.Compose(b...))(input...)
-	case "P":
-		out = fpgo.Pipe(fpgo.Pipe(a...), fpgo.Pipe(b...))(input...)
-	default:
+	build := func() func(...int) []int {
+		if variant == "C" {
+			return fpgo.Compose(fpgo.Compose(a...), fpgo.Compose(b...))
+		}
+		return fpgo.Pipe(fpgo.Pipe(a...), fpgo.Pipe(b...))
+	}
+	if variant != "C" && variant != "P" {
 		return "bad-case"
 	}
-	return "ok " + c20ShowInts(out)
+	first := build()
+	out := first(input...)
+	res := "ok " + c20ShowInts(out)
+	// the regrouping and the flat composition, both built again from the same slice (sub-slices share its array)
+	again := build()(input...)
+	var flat []int
+	if variant == "C" {
+		flat = fpgo.Compose(fs...)(input...)
+	} else {
+		flat = fpgo.Pipe(fs...)(input...)
+	}
+	rerun := first(input...)
+	if !c20SameInts(again, out) || !c20SameInts(flat, out) || !c20SameInts(rerun, out) {
+		res += " again=" + c20ShowInts(again) + " flat=" + c20ShowInts(flat) + " rerun=" + c20ShowInts(rerun)
+	}
+	return res
 }
 
 // ---------------------------------------------------------------------------------------------
@@ -445,10 +509,13 @@ func c20RunCurry(variant string, n int, ops []string) string {
 
 // c20RunStress: g goroutines make m Calls of a arguments each (argument = ((t*10000+j)*10+pos)); the user
 // function logs every invocation and marks done once n arguments have accumulated (n = -1: never; n = -2: an
-// extra goroutine calls MarkDone at some moment).  The monitor checks the clauses of the property on the log.
+// extra goroutine calls MarkDone at some moment).  y = scheduling noise inside the function (0 none, 1 Gosched, 2 rare
+// sleeps, 3 the first invocation lingers until another one finished or 50 ms passed).  The monitor checks the clauses
+// of the property on the log.
 func c20RunStress(g, m, a, n, y int) string {
 	var logMu sync.Mutex
 	var log [][]int
+	var finished int32
 	c := fpgo.CurryNewGenerics(func(c *fpgo.CurryDef[int, int], args ...int) int {
 		cp := append([]int{}, args...)
 		logMu.Lock()
@@ -458,10 +525,21 @@ func c20RunStress(g, m, a, n, y int) string {
 			runtime.Gosched()
 		} else if y == 2 && len(cp)%7 == 0 {
 			time.Sleep(time.Microsecond)
+		} else if y == 3 && len(cp) == a {
+			// inversion probe: the invocation of the FIRST accepted Call lingers until some other invocation has
+			// finished, at most 50 ms.  Calls are serialised by the property ("once per Call with all arguments so
+			// far", Result = the last invocation's value), so no other invocation can even start meanwhile and this
+			// one simply waits the 50 ms out; if invocations overlap, a later Call overtakes it here and its own
+			// result arrives last.  Nothing in the observation depends on how long the wait really took.
+			deadline := time.Now().Add(50 * time.Millisecond)
+			for atomic.LoadInt32(&finished) == 0 && time.Now().Before(deadline) {
+				time.Sleep(100 * time.Microsecond)
+			}
 		}
 		if n >= 0 && len(cp) >= n {
 			c.MarkDone()
 		}
+		atomic.AddInt32(&finished, 1)
 		return c20Hash(cp)
 	})
 	var wg sync.WaitGroup
